@@ -29,7 +29,7 @@ class TranslateError(Exception):
 # ------------------------------------------------------------------------------------------------
 TOKEN = re.compile(r"""
     \s*(?:
-      (?P<eps>std::numeric_limits<\s*\w+\s*>::epsilon\(\))
+      (?P<eps>std::numeric_limits<\s*(?:K|real_type)\s*>::epsilon\(\))   # only the epsilon of the scalar type itself
     | (?P<norm>(?:matrix|scaledMatrix)\s*\.\s*infinity_norm\(\))
     | (?P<cast>(?:real_type|K)\s*\(\s*(?P<castnum>[0-9.]+(?:[eE][-+]?[0-9]+)?)\s*\))
     | (?P<num>(?:[0-9]+\.?[0-9]*|\.[0-9]+)(?:[eE][-+]?[0-9]+)?)
